@@ -144,10 +144,11 @@ def run(ctx: core.Ctx) -> None:
         data.append({"gt": "[CH3:1][C:2](=[O:3])[OH:4].[CH3:5][OH:6]>>[CH3:1][C:2](=[O:3])[O:6][CH3:5].[OH2:4]",
                      "m1": "[CH3:1][C:2](=[O:3])[OH:4].[CH3:5][OH:6]>>[CH3:1][C:2](=[O:4])[O:6][CH3:5].[OH2:3]",
                      "m2": "[CH3:5][C:1](=[O:2])[OH:3].[CH3:6][OH:4]>>[CH3:5][C:1](=[O:2])[O:4][CH3:6].[OH2:3]"})
+        small = data[-2:] + [{"gt": t, "m1": chem.renumber_aam(t, rng)[0], "m2": t} for t in
+                             ("[CH3:1][CH:2]=[O:3].[CH3:4][NH2:5]>>[CH3:1][CH:2]=[N:5][CH3:4].[OH2:3]", "[CH3:1][Br:2].[OH-:3]>>[CH3:1][OH:3].[Br-:2]")]
         for ia in (False, True):
-            for it in (True, False):
-                same.append({"what": "aam-validation", "data": data, "ignore_aromaticity": ia, "ignore_tautomers": it,
-                             "method": rng.choice(["RC", "ITS"])})
+            same.append({"what": "aam-validation", "data": data, "ignore_aromaticity": ia, "ignore_tautomers": True, "method": rng.choice(["RC", "ITS"])})
+            same.append({"what": "aam-validation", "data": small, "ignore_aromaticity": ia, "ignore_tautomers": False, "method": "RC"})
         bal = [{"reactions": s} for s in sample] + [{"reactions": s.split(">>")[0] + ">>" + s.split(">>")[1].split(".")[0]} for s in sample[:8]]
         same.append({"what": "balance-check", "data": bal})
     tb = {t["name"]: t["rsmi"] for t in reactlib.textbook()}
